@@ -22,6 +22,7 @@ META = {
     'assumptions': ['reference value oracle: amount * own scale walk of unit.definition'],
 }
 META['bounds'].append('portions of concrete allocations (2 amounts x 3 ratio lists x 4 receivers; enumeration) compared with symbolic quantities in 3 other units')
+META['bounds'].append('three unit pairs with non-decimal ratio (h/min, yd/ft, lb/kg) under the faithful model of result kinds (option repr_fork)')
 
 OPS = [('lt', operator.lt), ('le', operator.le), ('eq', operator.eq),
        ('ne', operator.ne), ('ge', operator.ge), ('gt', operator.gt)]
